@@ -37,9 +37,9 @@ def strat_reductions(draw, tier):
     if kind == 'nested_all_one':
         case['nests'] = draw(mc.nested_structure(alts, force_all_one=True))
     elif kind in ('nested_mu_one', 'nested_tuple', 'nested_mu_tuple'):
-        case['nests'] = draw(mc.nested_structure(alts))
+        case['nests'] = draw(mc.nested_structure(alts, below_one=kind == 'nested_tuple' and draw(st.booleans())))
     elif kind == 'cnl_degenerate':
-        case['nests'] = draw(mc.cross_nested_structure(alts, degenerate=True))
+        case['nests'] = draw(mc.cross_nested_structure(alts, degenerate=True, below_one=draw(st.booleans())))
     else:
         case['nests'] = draw(mc.cross_nested_structure(alts))
     if kind in ('nested_mu_one', 'cnl_mu_one'):
